@@ -394,10 +394,11 @@ def transEvs (v : Variant) : Nat → Heap → St → List TEv → TRes
       let rest := transEvs v fuel h st ts
       ⟨rest.h, rest.st, t :: rest.out, rest.err⟩
 
-/-- what `_flatten` pulls from when its own stack is empty -/
+/-- what `_flatten` pulls from when its own stack is empty: the list `root` (a template's `_stream`, or the
+    fallback of an include), directly or through the Translator generator -/
 inductive Src where
-  | direct (i : Nat)                                -- `iter(template.stream)`
-  | trans (i : Nat) (started : Bool) (pend : Nat)   -- the Translator generator over it, suspended
+  | direct (root : Ref) (i : Nat)                                -- `iter(stream)`
+  | trans (root : Ref) (i : Nat) (started : Bool) (pend : Nat)   -- the Translator generator over it, suspended
   deriving DecidableEq, Repr, Inhabited
 
 structure SrcRes where
@@ -408,27 +409,27 @@ structure SrcRes where
   deriving Repr, Inhabited
 
 def pullSource (v : Variant) (fuel : Nat) (h : Heap) (st : St) : Src → SrcRes
-  | .direct i =>
-    match readEvs h st.ph (.tmpl 0) with
-    | none => ⟨h, st, .direct i, .err .unmodelled⟩
+  | .direct root i =>
+    match readEvs h st.ph root with
+    | none => ⟨h, st, .direct root i, .err .unmodelled⟩
     | some l =>
       match l[i]? with
-      | some t => ⟨h, st, .direct (i + 1), .item t⟩
-      | none => ⟨h, st, .direct i, .done⟩
-  | .trans i started pend =>
+      | some t => ⟨h, st, .direct root (i + 1), .item t⟩
+      | none => ⟨h, st, .direct root i, .done⟩
+  | .trans root i started pend =>
     let c0 := if started then st.ctx else setI18nKeys st.ctx
     let st1 : St := { st with ctx := popN pend c0 }
-    match readEvs h st.ph (.tmpl 0) with
-    | none => ⟨h, st1, .trans i true 0, .err .unmodelled⟩
+    match readEvs h st.ph root with
+    | none => ⟨h, st1, .trans root i true 0, .err .unmodelled⟩
     | some l =>
       match l[i]? with
-      | none => ⟨h, st1, .trans i true 0, .done⟩
+      | none => ⟨h, st1, .trans root i true 0, .done⟩
       | some (.sub d b) =>
         let r := transSub v (transEvs v fuel) h st1 d b
         match r.err with
-        | some e => ⟨r.h, r.st, .trans (i + 1) true 0, .err e⟩
-        | none => ⟨r.h, r.st, .trans (i + 1) true r.pops, .item r.ev⟩
-      | some t => ⟨h, st1, .trans (i + 1) true 0, .item t⟩
+        | some e => ⟨r.h, r.st, .trans root (i + 1) true 0, .err e⟩
+        | none => ⟨r.h, r.st, .trans root (i + 1) true r.pops, .item r.ev⟩
+      | some t => ⟨h, st1, .trans root (i + 1) true 0, .item t⟩
 
 /-! ## `_flatten` -/
 
@@ -437,11 +438,12 @@ def resumeTop : List It → List It
   | .raw r _ :: rest => .raw r 0 :: rest
   | l => l
 
-inductive StepOut where
+/-- what comes out of `_flatten` (and passes `_match` unchanged) -/
+inductive FlatOut where
   | ev (e : Event)
-  | done                 -- StopIteration: the render is complete
-  | err (e : Err)        -- the exception that ends the render
-  | stopped              -- `next()` on a generator that already finished or raised
+  | done
+  | err (e : Err)
+  | incl (t : Option Nat) (fb : Option Ref)      -- an INCLUDE event, for the `_include` filter behind
   deriving DecidableEq, Repr, Inhabited
 
 structure FlatRes where
@@ -449,7 +451,7 @@ structure FlatRes where
   st : St
   src : Src
   stack : List It
-  out : StepOut
+  out : FlatOut
   deriving Repr, Inhabited
 
 def flat (v : Variant) : Nat → Heap → St → Src → List It → FlatRes
@@ -475,6 +477,7 @@ def flat (v : Variant) : Nat → Heap → St → Src → List It → FlatRes
       match t with
       | .out e => ⟨h1, st1, src1, stack1, .ev e⟩
       | .other => ⟨h1, st1, src1, stack1, .err .unmodelled⟩
+      | .incl ti fb => ⟨h1, st1, src1, stack1, .incl ti fb⟩
       | .expr ex =>
         match eval st1.ctx.frames ex with
         | .error er => ⟨h1, st1, src1, stack1, .err er⟩
@@ -495,26 +498,81 @@ def flat (v : Variant) : Nat → Heap → St → Src → List It → FlatRes
           | .error er => ⟨h1, st1, src1, stack1, .err er⟩
           | .ok (c2, it2) => flat v fuel h1 { st1 with ctx := c2 } src1 (it2 :: stack1)
 
+/-! ## the `_include` filter: one pipeline (filters of a template over a list) per nesting level -/
+
+/-- the suspended generators of one `generate()` / of the filtered fallback: `_flatten` and its source -/
+structure PFrame where
+  src : Src
+  stack : List It
+  deriving Repr, Inhabited
+
+def srcOver (translator : Bool) (root : Ref) : Src :=
+  if translator then .trans root 0 false 0 else .direct root 0
+
+inductive StepOut where
+  | ev (e : Event)
+  | done                 -- StopIteration: the render is complete
+  | err (e : Err)        -- the exception that ends the render
+  | stopped              -- `next()` on a generator that already finished or raised
+  deriving DecidableEq, Repr, Inhabited
+
+structure PipeRes where
+  h : Heap
+  st : St
+  frames : List PFrame
+  touched : List Nat     -- templates loaded through the loader and rendered (`tmpl.generate(ctxt)` prepares them)
+  out : StepOut
+  deriving Repr, Inhabited
+
+/-- `roots[t]` = address of the `_stream` list of template `t` of the loader (0 = the template itself).
+    Head of `frames` = the innermost pipeline, the one that runs. -/
+def pipe (v : Variant) (translator : Bool) (roots : List Nat) :
+    Nat → Heap → St → List PFrame → List Nat → PipeRes
+  | 0, h, st, frames, touched => ⟨h, st, frames, touched, .err .fuel⟩
+  | _ + 1, h, st, [], touched => ⟨h, st, [], touched, .done⟩
+  | fuel + 1, h, st, f :: outer, touched =>
+    let r := flat v fuel h st f.src f.stack
+    let cur : PFrame := ⟨r.src, r.stack⟩
+    match r.out with
+    | .ev e => ⟨r.h, r.st, cur :: outer, touched, .ev e⟩
+    | .err e => ⟨r.h, r.st, cur :: outer, touched, .err e⟩
+    | .done => pipe v translator roots fuel r.h r.st outer touched     -- back in the includer's `for event in …`
+    | .incl (some t) _ =>
+      match roots[t]? with
+      | none => ⟨r.h, r.st, cur :: outer, touched, .err .unmodelled⟩
+      | some root =>
+        pipe v translator roots fuel r.h r.st (⟨srcOver translator (.tmpl root), []⟩ :: cur :: outer) (touched ++ [t])
+    | .incl none (some fb) =>
+      pipe v translator roots fuel r.h r.st (⟨srcOver translator fb, []⟩ :: cur :: outer) touched
+    | .incl none none =>
+      -- TemplateNotFound; inside an included template the includer's `except` would see it (C11's business)
+      ⟨r.h, r.st, cur :: outer, touched, .err (if outer.isEmpty then .notFound else .unmodelled)⟩
+
 /-! ## a render and its `next()` -/
 
 structure Render where
   ctx : Ctx
   ph : Heap
-  src : Src
-  stack : List It
+  frames : List PFrame
   live : Bool
   deriving Repr, Inhabited
 
 /-- `Template.generate(**data)` on a prepared template: nothing runs before the first `next()` -/
-def Render.new (translator : Bool) (data : Frame) : Render :=
-  { ctx := Ctx.new data, ph := [], src := if translator then .trans 0 false 0 else .direct 0,
-    stack := [], live := true }
+def Render.new (translator : Bool) (root : Nat) (data : Frame) : Render :=
+  { ctx := Ctx.new data, ph := [], frames := [⟨srcOver translator (.tmpl root), []⟩], live := true }
 
-def stepR (v : Variant) (fuel : Nat) (h : Heap) (r : Render) : Heap × Render × StepOut :=
+structure StepRes where
+  h : Heap
+  r : Render
+  out : StepOut
+  touched : List Nat
+  deriving Repr, Inhabited
+
+def stepR (v : Variant) (translator : Bool) (roots : List Nat) (fuel : Nat) (h : Heap) (r : Render) : StepRes :=
   if r.live then
-    let f := flat v fuel h ⟨r.ctx, r.ph⟩ r.src r.stack
+    let f := pipe v translator roots fuel h ⟨r.ctx, r.ph⟩ r.frames []
     let live := match f.out with | .ev _ => true | _ => false
-    (f.h, { ctx := f.st.ctx, ph := f.st.ph, src := f.src, stack := f.stack, live := live }, f.out)
-  else (h, r, .stopped)
+    ⟨f.h, { ctx := f.st.ctx, ph := f.st.ph, frames := f.frames, live := live }, f.out, f.touched⟩
+  else ⟨h, r, .stopped, []⟩
 
 end Genshi.Heap
